@@ -43,6 +43,8 @@ def levels(tier):
              "tpool": [0, 1]},
             {"name": "reopen", "pools": ["a"], "n": 2, "prelude": [["page", 1, False]], "alphabet": ["page", "delwe", "reopen", "overwrite"], "defaults": ["domain"],
              "anchored": [(1, 3, "path1")], "backend": "file", "overwrite_keeps_rules": True},
+            {"name": "recreate", "pools": ["a"], "n": 2, "prelude": [["page", 0, False], ["page", 1, False]], "alphabet": ["delwe", "page"],
+             "defaults": ["domain"], "anchored": [(1, 3, "path1")], "tpool": [0, 1]},
             {"name": "deep-anchor", "pools": ["a"], "n": 1, "alphabet": ["page"], "defaults": ["subdomain", "path1"],
              "anchored": [(2, 4, "domain"), (2, 5, "subdomain")]},
         ]
